@@ -25,7 +25,7 @@ DEFAULTS = {"http": 80, "https": 443, "ws": 80, "wss": 443, "ftp": 21}
 STRUCT = "/?#@[]:\t\r\n"
 
 
-def expected_views(ctx, u, scheme, hostsub, value, tail="/", port_text=None):
+def expected_views(ctx, u, scheme, hostsub, value, tail="/", port_text=None, ui=""):
     """checks on a URL whose explicit port is the (symbolic or concrete) integer `value` (None = absent)"""
     dflt = DEFAULTS.get(scheme)
     ctx.check("explicit_port", sym_eq(u.explicit_port, value))
@@ -34,7 +34,7 @@ def expected_views(ctx, u, scheme, hostsub, value, tail="/", port_text=None):
         ctx.check("is_default_port-when-absent", u.is_default_port() is True)
         # encoded=True keeps the authority text verbatim, including an empty port's ':'
         sep = ":" if port_text is not None else ""
-        ctx.check("str-without-port", sym_eq(str(u), (scheme + "://" if scheme else "//") + hostsub + sep + tail))
+        ctx.check("str-without-port", sym_eq(str(u), (scheme + "://" if scheme else "//") + ui + hostsub + sep + tail))
         ctx.check("host_port_subcomponent-without-port", sym_eq(u.host_port_subcomponent, hostsub))
         return
     ctx.check("port-is-explicit", sym_eq(u.port, value))
@@ -42,14 +42,29 @@ def expected_views(ctx, u, scheme, hostsub, value, tail="/", port_text=None):
     ctx.check("is_default_port", sym_eq(u.is_default_port(), isd))
     pre = scheme + "://" if scheme else "//"
     if isd:
-        ctx.check("str-drops-default-port", sym_eq(str(u), pre + hostsub + tail))
+        ctx.check("str-drops-default-port", sym_eq(str(u), pre + ui + hostsub + tail))
         ctx.check("host_port_subcomponent-drops-default-port", sym_eq(u.host_port_subcomponent, hostsub))
     else:
-        ctx.check("str-keeps-port", sym_eq(str(u), pre + hostsub + ":" + (str(value) if port_text is None else port_text) + tail))
+        ctx.check("str-keeps-port", sym_eq(str(u), pre + ui + hostsub + ":" + (str(value) if port_text is None else port_text) + tail))
         ctx.check("host_port_subcomponent-keeps-port", sym_eq(u.host_port_subcomponent, hostsub + ":" + str(value)))
 
 
-def h_ctor(ctx, scheme, host, k, encoded=False):
+def h_ctor_padded(ctx, scheme, host, k):
+    """long zero-padded port texts: only the value decides (holes over {0, 8, 9})"""
+    P = ctx.P
+    d = ctx.str("d", k, lo=48, hi=57, alphabet="089")
+    r = call(P.URL, scheme + "://" + host + ":" + d + "/")
+    ctx.observe("URL", outcome(r))
+    v = int(d)
+    if r[0] != "ok":
+        ctx.check("only-ValueError", r[0] == "excluded" or r[1] == "ValueError", r[1])
+        ctx.check("numeric-port-refused-only-if-out-of-range", v > 65535)
+        return
+    ctx.check("out-of-range-port-must-be-refused", v <= 65535)
+    ctx.check("explicit_port", sym_eq(r[1].explicit_port, v))
+
+
+def h_ctor(ctx, scheme, host, k, encoded=False, hostsub=None):
     P = ctx.P
     d = ctx.str("d", k) if k else ""
     if k:
@@ -79,15 +94,16 @@ def h_ctor(ctx, scheme, host, k, encoded=False):
             ctx.check("numeric-port-refused-only-if-out-of-range", v > 65535)
         return
     u = r[1]
-    hostsub = host
+    ui = host[:host.index("@") + 1] if "@" in host else ""
+    hostsub = hostsub if hostsub is not None else host
     if k == 0:
-        expected_views(ctx, u, scheme, hostsub, None, port_text="" if encoded else None)
+        expected_views(ctx, u, scheme, hostsub, None, port_text="" if encoded else None, ui=ui)
         return
     ctx.check("non-numeric-port-must-be-refused", digits)
     v = int(d)
     ctx.check("out-of-range-port-must-be-refused", v <= 65535)
     ctx.observe("explicit_port", u.explicit_port)
-    expected_views(ctx, u, scheme, hostsub, v, port_text=d if encoded else None)
+    expected_views(ctx, u, scheme, hostsub, v, port_text=d if encoded else None, ui=ui)
 
 
 def h_build(ctx, scheme, host, hostsub):
@@ -162,6 +178,11 @@ def families(tier):
                 fams.append(Family("ctor/%s/%s/k=%d" % (scheme or "none", host, k), h_ctor, dict(scheme=scheme, host=host, k=k)))
                 if scheme in ("http", "wss", "x") and host == "h" and k <= 4:
                     fams.append(Family("ctor-encoded/%s/%s/k=%d" % (scheme or "none", host, k), h_ctor, dict(scheme=scheme, host=host, k=k, encoded=True)))
+    fams.append(Family("ctor/http/h/zero-padded-k=7", h_ctor_padded, dict(scheme="http", host="h", k=7)))
+    fams.append(Family("ctor/x/h/zero-padded-k=6", h_ctor_padded, dict(scheme="x", host="h", k=6)))
+    for k in (1, 2, 3):
+        fams.append(Family("ctor-userinfo/http/k=%d" % k, h_ctor, dict(scheme="http", host="u:p@h", k=k, hostsub="h")))
+        fams.append(Family("ctor-userinfo/x/k=%d" % k, h_ctor, dict(scheme="x", host="u@[::1]", k=k, hostsub="[::1]")))
     for scheme in ("http", "https", "ws", "wss", "ftp", "x", ""):
         for host, hostsub in (("h", "h"), ("::1", "[::1]"), ("1.2.3.4", "1.2.3.4")):
             fams.append(Family("build/%s/%s" % (scheme or "none", host), h_build, dict(scheme=scheme, host=host, hostsub=hostsub)))
